@@ -15,6 +15,7 @@
 package etcd
 
 import (
+	"bytes"
 	"context"
 	"fmt"
 	"time"
@@ -106,9 +107,16 @@ func (s *RPCServer) Txn(ctx context.Context, txn *etcdserverpb.TxnRequest) (*etc
 		if err != nil || !response.Succeeded {
 			failedKey = string(put.Key)
 		}
-	} else if rev, key, ok := isDelete(txn); ok {
+	} else if rev, key, guarded, ok := isDelete(txn); ok {
 		response, err = s.backend.Delete(ctx, key, rev)
 		methodTag = metrics.Tag("method", "delete")
+		if err == nil && !guarded && !response.Succeeded && len(response.Responses) == 1 &&
+			len(response.Responses[0].GetResponseRange().GetKvs()) == 0 {
+			// a transaction without compares always takes its success branch (etcd semantics): deleting
+			// a missing key succeeds, the caller learns "not found" from the empty range response.
+			// (a lost race with a concurrent writer still answers Succeeded=false with the current kv)
+			response.Succeeded = true
+		}
 		if err != nil || !response.Succeeded {
 			failedKey = string(key)
 		}
@@ -157,53 +165,80 @@ func (s *RPCServer) DeleteRange(ctx context.Context, r *etcdserverpb.DeleteRange
 	return nil, fmt.Errorf("delete is not supported")
 }
 
+// isModCompareOn tells if c is `ModRevision(key) == x` on the single key `key`
+func isModCompareOn(c *etcdserverpb.Compare, key []byte) bool {
+	return c.Target == etcdserverpb.Compare_MOD &&
+		c.Result == etcdserverpb.Compare_EQUAL &&
+		len(c.RangeEnd) == 0 &&
+		bytes.Equal(c.Key, key)
+}
+
+// isPlainGet tells if op is a point read of `key` at the current revision
+func isPlainGet(op *etcdserverpb.RequestOp, key []byte) bool {
+	r := op.GetRequestRange()
+	return r != nil &&
+		bytes.Equal(r.Key, key) &&
+		len(r.RangeEnd) == 0 &&
+		r.Revision == 0 &&
+		!r.CountOnly && !r.KeysOnly &&
+		r.MinModRevision == 0 && r.MaxModRevision == 0 &&
+		r.MinCreateRevision == 0 && r.MaxCreateRevision == 0
+}
+
+// pointDelete returns the delete op if it deletes exactly one key
+func pointDelete(op *etcdserverpb.RequestOp) *etcdserverpb.DeleteRangeRequest {
+	d := op.GetRequestDeleteRange()
+	if d != nil && len(d.RangeEnd) == 0 {
+		return d
+	}
+	return nil
+}
+
 func isCreate(txn *etcdserverpb.TxnRequest) *etcdserverpb.PutRequest {
 	if len(txn.Compare) == 1 &&
-		txn.Compare[0].Target == etcdserverpb.Compare_MOD &&
-		txn.Compare[0].Result == etcdserverpb.Compare_EQUAL &&
-		txn.Compare[0].GetModRevision() == 0 &&
 		len(txn.Failure) == 0 &&
 		len(txn.Success) == 1 &&
-		txn.Success[0].GetRequestPut() != nil {
+		txn.Success[0].GetRequestPut() != nil &&
+		isModCompareOn(txn.Compare[0], txn.Success[0].GetRequestPut().Key) &&
+		txn.Compare[0].GetModRevision() == 0 {
 		return txn.Success[0].GetRequestPut()
 	}
 	return nil
 }
 
-func isDelete(txn *etcdserverpb.TxnRequest) (int64, []byte, bool) {
+// isDelete returns (expected revision, key, guarded, ok)
+func isDelete(txn *etcdserverpb.TxnRequest) (int64, []byte, bool, bool) {
 	if len(txn.Compare) == 0 &&
 		len(txn.Failure) == 0 &&
 		len(txn.Success) == 2 &&
-		txn.Success[0].GetRequestRange() != nil &&
-		txn.Success[1].GetRequestDeleteRange() != nil {
-		rng := txn.Success[1].GetRequestDeleteRange()
-		return 0, rng.Key, true
+		pointDelete(txn.Success[1]) != nil &&
+		isPlainGet(txn.Success[0], pointDelete(txn.Success[1]).Key) {
+		return 0, pointDelete(txn.Success[1]).Key, false, true
 	}
 	if len(txn.Compare) == 1 &&
-		txn.Compare[0].Target == etcdserverpb.Compare_MOD &&
-		txn.Compare[0].Result == etcdserverpb.Compare_EQUAL &&
 		len(txn.Failure) == 1 &&
-		txn.Failure[0].GetRequestRange() != nil &&
 		len(txn.Success) == 1 &&
-		txn.Success[0].GetRequestDeleteRange() != nil {
-		return txn.Compare[0].GetModRevision(), txn.Success[0].GetRequestDeleteRange().Key, true
+		pointDelete(txn.Success[0]) != nil &&
+		isModCompareOn(txn.Compare[0], pointDelete(txn.Success[0]).Key) &&
+		// revision 0 means "unconditional" to the backend, but "key must not exist" to etcd
+		txn.Compare[0].GetModRevision() > 0 &&
+		isPlainGet(txn.Failure[0], pointDelete(txn.Success[0]).Key) {
+		return txn.Compare[0].GetModRevision(), pointDelete(txn.Success[0]).Key, true, true
 	}
-	return 0, nil, false
+	return 0, nil, false, false
 }
 
 func isUpdate(txn *etcdserverpb.TxnRequest) (int64, []byte, []byte, int64, bool) {
 	if len(txn.Compare) == 1 &&
-		txn.Compare[0].Target == etcdserverpb.Compare_MOD &&
-		txn.Compare[0].Result == etcdserverpb.Compare_EQUAL &&
 		len(txn.Success) == 1 &&
 		txn.Success[0].GetRequestPut() != nil &&
-		len(txn.Failure) == 1 &&
-		txn.Failure[0].GetRequestRange() != nil {
-		return txn.Compare[0].GetModRevision(),
-			txn.Compare[0].Key,
-			txn.Success[0].GetRequestPut().Value,
-			txn.Success[0].GetRequestPut().Lease,
-			true
+		len(txn.Failure) == 1 {
+		put := txn.Success[0].GetRequestPut()
+		if isModCompareOn(txn.Compare[0], put.Key) &&
+			!put.PrevKv && !put.IgnoreValue && !put.IgnoreLease &&
+			isPlainGet(txn.Failure[0], put.Key) {
+			return txn.Compare[0].GetModRevision(), put.Key, put.Value, put.Lease, true
+		}
 	}
 	return 0, nil, nil, 0, false
 }
